@@ -570,6 +570,39 @@ theorem released_when_consumer_closes_generator (C : LockContract B Ok keyOk) {s
   simp only at h
   exact ⟨(h.2.2.2.2.2 hw).1, (h.2.2.2.2.2 hw).2, h.1⟩
 
+/-- **Released on every exception class.**  `released_on_every_exit` is stated for an arbitrary `how`; this is its
+instance for a body that ends with an exception of ANY class - an application exception, every class that
+`cashews/exceptions.py` defines (`CacheBackendInteractionError`, `LockedError`, `NotConfiguredError`,
+`UnSecureDataError`, ...: the body may itself talk to a cache and let the error through) or a `BaseException`
+outside `Exception`: the class of the exception is not an input of the release.  The leaver's lock is gone, it is
+`done`, and if it was within its lease the unlock answers True, the key is free and the next attempt of a waiter
+succeeds (`acquire_after_release`). -/
+theorem released_on_every_exception_class (C : LockContract B Ok keyOk) {s0 : LockSt σ}
+    (h0 : Start B Ok s0) (tr : List Act) (htr : ∀ a ∈ tr, a.keysIn keyOk)
+    (c : ExcClass) (t : Nat) (key tok : Nat) (dl : Option Nat)
+    (ht : (run B s0 tr).tasks t = .inside key tok dl)
+    (hw : withinLease B (run B s0 tr) t = true) :
+    (step B (run B s0 tr) (.leave t (.exc c))).2 = .released true ∧
+    B.owner (step B (run B s0 tr) (.leave t (.exc c))).1.be key = none ∧
+    (step B (run B s0 tr) (.leave t (.exc c))).1.tasks t = .done ∧
+    step B (run B s0 tr) (.leave t (.exc c)) = step B (run B s0 tr) (.leave t .normal) := by
+  have h := released_on_every_exit C h0 tr htr t (.exc c) key tok dl ht
+  simp only at h
+  refine ⟨(h.2.2.2.2.2 hw).1, (h.2.2.2.2.2 hw).2, h.1, ?_⟩
+  simp only [step]
+
+/-- If leaving with ONE exception class skipped the unlock (`CacheBackendInteractionError`: "the backend went
+away, the lease runs out by itself"), the release clause would be FALSE for that class and for no other: after a
+body that raised it nobody is in the section, yet the key is still owned and a later caller is refused for the
+rest of the ttl - with every other class the caller gets in. -/
+theorem skipping_unlock_for_one_exception_class_breaks_release :
+    (let s := runLostBackend (init TtlMap.init) (trBodyRaises .backendInteraction)
+     inSection s 0 0 = false ∧ inSection s 1 0 = false ∧ (ttlOps.owner s.be 0).isSome = true ∧
+     s.tasks 1 = .failed) ∧
+    (∀ c ∈ ExcClass.all, c ≠ .backendInteraction →
+      insideKey (runLostBackend (init TtlMap.init) (trBodyRaises c)) 1 0 = true) ∧
+    (∀ c ∈ ExcClass.all, insideKey (run ttlOps (init TtlMap.init) (trBodyRaises c)) 1 0 = true) := by decide
+
 /-- If a `timedelta` ttl were cut to whole seconds, the lease would end early: a holder that wrote
 `timedelta(seconds=2, milliseconds=500)` (20 ticks) is inside and within ITS lease at tick 16, yet a waiter
 acquires there (with the faithful lowering it is refused); and `timedelta(milliseconds=500)` would become 0 =
